@@ -62,6 +62,15 @@ struct Typed {
     borrowed: Option<String>,
 }
 
+thread_local! {
+    /// the FINAL key of the property under test (`val`, or what `#[emit::key("…")]` renamed it to)
+    static KEY: std::cell::Cell<&'static str> = const { std::cell::Cell::new("val") };
+}
+
+fn key() -> &'static str {
+    KEY.with(|k| k.get())
+}
+
 /// Every typed conversion of one value (`get(..).cast::<T>()`).
 fn typed_of_value(v: &Value) -> Typed {
     Typed {
@@ -88,23 +97,23 @@ fn typed_of_value(v: &Value) -> Typed {
 /// Every typed pull of `val` straight off a property set (`Props::pull::<T>`).
 fn typed_of_props<P: Props + ?Sized>(p: &P) -> Typed {
     Typed {
-        bool_: p.pull::<bool, _>("val"),
-        i8_: p.pull::<i8, _>("val"),
-        i16_: p.pull::<i16, _>("val"),
-        i32_: p.pull::<i32, _>("val"),
-        i64_: p.pull::<i64, _>("val"),
-        i128_: p.pull::<i128, _>("val"),
-        isize_: p.pull::<isize, _>("val"),
-        u8_: p.pull::<u8, _>("val"),
-        u16_: p.pull::<u16, _>("val"),
-        u32_: p.pull::<u32, _>("val"),
-        u64_: p.pull::<u64, _>("val"),
-        u128_: p.pull::<u128, _>("val"),
-        usize_: p.pull::<usize, _>("val"),
-        f64_: p.pull::<f64, _>("val"),
-        string: p.pull::<String, _>("val"),
-        cow: p.pull::<std::borrow::Cow<str>, _>("val").map(|c| c.into_owned()),
-        borrowed: p.pull::<&str, _>("val").map(|s| s.to_string()),
+        bool_: p.pull::<bool, _>(key()),
+        i8_: p.pull::<i8, _>(key()),
+        i16_: p.pull::<i16, _>(key()),
+        i32_: p.pull::<i32, _>(key()),
+        i64_: p.pull::<i64, _>(key()),
+        i128_: p.pull::<i128, _>(key()),
+        isize_: p.pull::<isize, _>(key()),
+        u8_: p.pull::<u8, _>(key()),
+        u16_: p.pull::<u16, _>(key()),
+        u32_: p.pull::<u32, _>(key()),
+        u64_: p.pull::<u64, _>(key()),
+        u128_: p.pull::<u128, _>(key()),
+        usize_: p.pull::<usize, _>(key()),
+        f64_: p.pull::<f64, _>(key()),
+        string: p.pull::<String, _>(key()),
+        cow: p.pull::<std::borrow::Cow<str>, _>(key()).map(|c| c.into_owned()),
+        borrowed: p.pull::<&str, _>(key()).map(|s| s.to_string()),
     }
 }
 
@@ -172,7 +181,7 @@ fn observe_wide<P: Props>(evt: &emit::Event<P>) -> WideObs {
     let _ = evt.props().for_each(|k, v| {
         o.total += 1;
         if !o.first.iter().any(|(k2, _)| k2 == k.get()) {
-            if k == "val" {
+            if k == key() {
                 o.val_first = Some(typed_of_value(&v));
             }
             o.first.push((k.get().to_string(), format!("{:?}", v)));
@@ -180,7 +189,7 @@ fn observe_wide<P: Props>(evt: &emit::Event<P>) -> WideObs {
         std::ops::ControlFlow::Continue(())
     });
     let _ = evt.props().dedup().for_each(|k, v| {
-        if k == "val" {
+        if k == key() {
             o.val_dedup_concrete = Some(typed_of_value(&v));
         }
         o.dedup_concrete.push((k.get().to_string(), format!("{:?}", v)));
@@ -188,13 +197,13 @@ fn observe_wide<P: Props>(evt: &emit::Event<P>) -> WideObs {
     });
     let erased = evt.erase();
     let _ = erased.props().dedup().for_each(|k, v| {
-        if k == "val" {
+        if k == key() {
             o.val_dedup_erased = Some(typed_of_value(&v));
         }
         o.dedup_erased.push((k.get().to_string(), format!("{:?}", v)));
         std::ops::ControlFlow::Continue(())
     });
-    o.val_get = evt.props().get("val").map(|v| typed_of_value(&v));
+    o.val_get = evt.props().get(key()).map(|v| typed_of_value(&v));
     o
 }
 
@@ -417,7 +426,7 @@ struct GlobalObsEmitter;
 impl Emitter for GlobalObsEmitter {
     fn emit<E: emit::event::ToEvent>(&self, evt: E) {
         let evt = evt.to_event();
-        let o = evt.props().get("val").map(observe);
+        let o = evt.props().get(key()).map(observe);
         GLOBAL_SEEN.with(|s| s.borrow_mut().push(o));
     }
 
@@ -440,12 +449,12 @@ impl Emitter for ObsEmitter {
             // typed reads of a shadowed key: on the concrete event this (typed) emitter is handed,
             // on its erased form, and on owned copies of the value
             let erased = evt.erase();
-            let owned = evt.props().get("val").map(|v| (v.to_owned(), v.to_shared()));
+            let owned = evt.props().get(key()).map(|v| (v.to_owned(), v.to_shared()));
             let paths = vec![
                 ("concrete-pull", Some(typed_of_props(evt.props()))),
-                ("concrete-cast", evt.props().get("val").map(|v| typed_of_value(&v))),
+                ("concrete-cast", evt.props().get(key()).map(|v| typed_of_value(&v))),
                 ("erased-pull", Some(typed_of_props(erased.props()))),
-                ("erased-cast", erased.props().get("val").map(|v| typed_of_value(&v))),
+                ("erased-cast", erased.props().get(key()).map(|v| typed_of_value(&v))),
                 ("by-ref-pull", Some(typed_of_props(&evt.by_ref().props()))),
                 ("owned", owned.as_ref().map(|(o, _)| typed_of_value(&o.by_ref()))),
                 ("shared", owned.as_ref().map(|(_, s)| typed_of_value(&s.by_ref()))),
@@ -453,7 +462,7 @@ impl Emitter for ObsEmitter {
             self.1.lock().unwrap().push(ShadowObs { paths });
             return;
         }
-        let o = evt.props().get("val").map(observe);
+        let o = evt.props().get(key()).map(observe);
         self.0.lock().unwrap().push(o);
     }
 
@@ -486,6 +495,8 @@ struct Driver<'a> {
     pending_known: Vec<String>,
     /// typed reads of the captured value alone (no shadowing), from the `evt!` site
     reference: Option<Option<Typed>>,
+    /// the site renames its keys with `#[emit::key]`
+    renamed: bool,
 }
 
 fn f64_same(a: f64, b: f64) -> bool {
@@ -504,7 +515,7 @@ impl<'a> Driver<'a> {
         );
         let direct_serde = serde_json::to_string(model).map_err(|e| e.to_string());
         let direct_sval = sval_json::stream_to_string(model).map_err(|e| e.to_string());
-        Driver { r, site, cap, model, exp, case, rt, emitter, direct_serde, direct_sval, threads, alt: None, variant: 0, collect: None, pending_known: Vec::new(), reference: None }
+        Driver { r, site, cap, model, exp, case, rt, emitter, direct_serde, direct_sval, threads, alt: None, variant: 0, collect: None, pending_known: Vec::new(), reference: None, renamed: false }
     }
 
     fn violation(&mut self, path: &str, what_sig: &str, what: String) {
@@ -519,7 +530,11 @@ impl<'a> Driver<'a> {
         let sig = if what_sig == KNOWN_SEQ {
             KNOWN_SEQ.to_string()
         } else {
-            format!("C19:{}:{}:{}:{}", self.cap.name(), self.model.shape(), path_class(path), what_sig)
+            if self.renamed {
+                format!("C19:renamed-key:{}:{}:{}:{}", path_class(path), key(), self.cap.name(), what_sig)
+            } else {
+                format!("C19:{}:{}:{}:{}", self.cap.name(), self.model.shape(), path_class(path), what_sig)
+            }
         };
         let mut case = self.case.clone();
         case["path"] = json!(path);
@@ -743,24 +758,26 @@ impl<'a> Driver<'a> {
 
     /// An event built by `emit::evt!`.
     fn event<P: Props>(&mut self, evt: &emit::Event<P>) {
-        self.reference = catch(|| evt.props().get("val").map(|v| typed_of_value(&v))).ok();
-        self.check("direct", evt.props().get("val"), Level::Full);
+        self.enumerated_is_found("direct", evt.props());
+        self.enumerated_is_found("erased", evt.erase().props());
+        self.reference = catch(|| evt.props().get(key()).map(|v| typed_of_value(&v))).ok();
+        self.check("direct", evt.props().get(key()), Level::Full);
         {
             let erased = evt.erase();
-            self.check("erased", erased.props().get("val"), Level::Full);
+            self.check("erased", erased.props().get(key()), Level::Full);
         }
         // typed pull straight off the props (`Props::pull`) for the commonest types
         if let (Some(M::I64(x)), None) = (&self.exp.typed, &self.alt) {
-            if evt.props().pull::<i64, _>("val") != Some(*x) {
+            if evt.props().pull::<i64, _>(key()) != Some(*x) {
                 self.violation("direct", "props-pull", format!("Props::pull::<i64> != {}", x));
             }
         }
         if let (Some(M::Str(x)), None) = (&self.exp.typed, &self.alt) {
-            if evt.props().pull::<&str, _>("val") != Some(x.as_str()) && self.cap != Cap::Value {
+            if evt.props().pull::<&str, _>(key()) != Some(x.as_str()) && self.cap != Cap::Value {
                 self.violation("direct", "props-pull", format!("Props::pull::<&str> != {:?}", x));
             }
         }
-        if let Some(v) = evt.props().get("val") {
+        if let Some(v) = evt.props().get(key()) {
             let owned = catch(|| (v.to_owned(), v.to_shared()));
             match owned {
                 Err(p) => self.violation("owned", "panic", format!("to_owned / to_shared panicked: {}", p)),
@@ -805,11 +822,30 @@ impl<'a> Driver<'a> {
     }
 
     /// Props built by `emit::props!`.
+    /// Whatever `for_each` enumerates, `get` must find under the same key.
+    fn enumerated_is_found<P: Props + ?Sized>(&mut self, path: &str, props: &P) {
+        let mut keys: Vec<String> = Vec::new();
+        let _ = props.for_each(|k, _| {
+            keys.push(k.get().to_string());
+            std::ops::ControlFlow::Continue(())
+        });
+        for k in keys {
+            self.r.observe("check:enumerated-is-found", 1);
+            if props.get(k.as_str()).is_none() {
+                let sig = if self.renamed { format!("C19:renamed-key:{}:{}:enumerated-but-not-found", path, k) } else { format!("C19:{}:enumerated-but-not-found", path) };
+                let mut case = self.case.clone();
+                case["path"] = json!(path);
+                self.r.violation(&sig, &format!("site {}: for_each enumerates key {:?} but get({:?}) finds nothing", self.site, k, k), case);
+            }
+        }
+    }
+
     fn props<P: Props>(&mut self, props: &P) {
-        self.check("props", props.get("val"), Level::Full);
+        self.enumerated_is_found("props", props);
+        self.check("props", props.get(key()), Level::Full);
         let mut n = 0;
         let _ = props.for_each(|k, _| {
-            if k == "val" {
+            if k == key() {
                 n += 1;
             }
             std::ops::ControlFlow::Continue(())
@@ -824,7 +860,7 @@ impl<'a> Driver<'a> {
         let res = catch(|| {
             let mut frame = emit::Frame::push(&ctxt, props);
             let _g = frame.enter();
-            emit::Ctxt::with_current(&ctxt, |cur| cur.get("val").map(observe))
+            emit::Ctxt::with_current(&ctxt, |cur| cur.get(key()).map(observe))
         });
         self.r.observe("path:ctxt", 1);
         match res {
@@ -1146,7 +1182,7 @@ impl emit::value::ToValue for ViaSerde {
 }
 
 fn read_ctxt(rt: &Rt) -> Result<Option<Obs>, String> {
-    catch(|| emit::Ctxt::with_current(rt.ctxt(), |cur| cur.get("val").map(observe)))
+    catch(|| emit::Ctxt::with_current(rt.ctxt(), |cur| cur.get(key()).map(observe)))
 }
 
 macro_rules! sites {
@@ -1280,6 +1316,96 @@ macro_rules! sites {
     };
 }
 
+/// Sites whose keys are renamed with `#[emit::key("…")]`, so that key order differs from the
+/// identifier order the macro sorts its property array by: the value under test renamed to a key
+/// that sorts last / first / in the middle, with plain and renamed neighbours (2..5 properties).
+macro_rules! renamed_sites {
+    ($( $name:ident : $cap:expr, $class:literal, |$m:ident, $val:ident| $t:ty = $extract:expr => [$($attr:tt)*] $vexpr:expr ;)*) => {
+        $(
+            #[allow(unused_variables, unreachable_patterns, unused_mut)]
+            fn $name(model: &M, d: &mut Driver) {
+                let $m = model;
+                let owned: $t = $extract;
+                let $val = &owned;
+                d.renamed = true;
+                struct Reset;
+                impl Drop for Reset {
+                    fn drop(&mut self) {
+                        KEY.with(|k| k.set("val"));
+                    }
+                }
+                let _reset = Reset;
+                match d.variant % 3 {
+                    // identifier sorts first, key sorts last
+                    0 => {
+                        KEY.with(|k| k.set("took"));
+                        {
+                            let evt = emit::evt!("renamed {method}", #[emit::key("took")] $($attr)* elapsed: $vexpr, method: "GET", retry: 3);
+                            d.event(&evt);
+                        }
+                        {
+                            let props = emit::props! { #[emit::key("took")] $($attr)* elapsed: $vexpr, method: "GET", retry: 3 };
+                            d.props(&props);
+                        }
+                        {
+                            let rt = d.runtime();
+                            emit::emit!(rt, "renamed", #[emit::key("took")] $($attr)* elapsed: $vexpr, method: "GET");
+                            d.emitted();
+                        }
+                    }
+                    // identifier in the middle, key sorts first
+                    1 => {
+                        KEY.with(|k| k.set("a0"));
+                        {
+                            let evt = emit::evt!("renamed", alpha: 1, #[emit::key("a0")] $($attr)* middle: $vexpr, zeta: true);
+                            d.event(&evt);
+                        }
+                        {
+                            let props = emit::props! { alpha: 1, #[emit::key("a0")] $($attr)* middle: $vexpr, zeta: true };
+                            d.props(&props);
+                        }
+                        {
+                            let rt = d.runtime();
+                            emit::info!(rt, "renamed", alpha: 1, #[emit::key("a0")] $($attr)* middle: $vexpr, zeta: true);
+                            d.emitted();
+                        }
+                    }
+                    // identifier sorts last, key in the middle, renamed neighbours, 5 properties
+                    _ => {
+                        KEY.with(|k| k.set("mid"));
+                        {
+                            let evt = emit::evt!("renamed", #[emit::key("zz")] a: 1, #[emit::key("mid")] $($attr)* zval: $vexpr, #[emit::key("aa")] m: "x", b: 2, c: 3.5);
+                            d.event(&evt);
+                        }
+                        {
+                            let props = emit::props! { #[emit::key("zz")] a: 1, #[emit::key("mid")] $($attr)* zval: $vexpr, #[emit::key("aa")] m: "x", b: 2, c: 3.5 };
+                            d.props(&props);
+                        }
+                        {
+                            let rt = d.runtime();
+                            emit::emit!(rt, "renamed", #[emit::key("zz")] a: 1, #[emit::key("mid")] $($attr)* zval: $vexpr, #[emit::key("aa")] m: "x", b: 2);
+                            d.emitted();
+                        }
+                    }
+                }
+            }
+        )*
+        const RENAMED_SITES: &[Site] = &[ $( Site { name: stringify!($name), cap: $cap, class: $class, run: $name, alt: None } ),* ];
+    };
+}
+
+fn n_sites() -> usize {
+    SITES.len() + RENAMED_SITES.len()
+}
+
+fn site_at(k: usize) -> &'static Site {
+    if k < SITES.len() {
+        &SITES[k]
+    } else {
+        &RENAMED_SITES[k - SITES.len()]
+    }
+}
+
 macro_rules! prim {
     ($m:expr, $variant:ident) => {
         match $m {
@@ -1388,6 +1514,21 @@ sites! {
     stacked_optional_debug_serde: Cap::Debug, alt Cap::Serde, "opt:structured", |m, v| Option<M> = opt_of(m).cloned() => [#[emit::optional] #[emit::as_debug] #[emit::as_serde]] v.as_ref();
 }
 
+renamed_sites! {
+    renamed_default_i64: Cap::Default, "i64", |m, v| i64 = prim!(m, I64) => [] *v;
+    renamed_default_string: Cap::Default, "str", |m, v| String = prim!(m, Str) => [] *v;
+    renamed_default_f64: Cap::Default, "f64", |m, v| f64 = prim!(m, F64) => [] *v;
+    renamed_display: Cap::Display, "structured", |m, v| M = m.clone() => [#[emit::as_display]] *v;
+    renamed_display_inspect: Cap::DisplayInspect, "i32", |m, v| i32 = prim!(m, I32) => [#[emit::as_display(inspect: true)]] *v;
+    renamed_debug: Cap::Debug, "structured", |m, v| M = m.clone() => [#[emit::as_debug]] *v;
+    renamed_value: Cap::Value, "u128", |m, v| u128 = prim!(m, U128) => [#[emit::as_value]] *v;
+    renamed_sval: Cap::Sval, "structured", |m, v| M = m.clone() => [#[emit::as_sval]] *v;
+    renamed_serde: Cap::Serde, "structured", |m, v| M = m.clone() => [#[emit::as_serde]] *v;
+    renamed_error: Cap::Error, "error", |m, v| ModelError = match m { M::Error(e) => e.clone(), _ => unreachable!() } => [#[emit::as_error]] *v;
+    renamed_optional: Cap::Default, "opt:i32", |m, v| Option<i32> = opt_of(m).map(|x| prim!(x, I32)) => [#[emit::optional]] v.as_ref();
+    renamed_optional_serde: Cap::Serde, "opt:structured", |m, v| Option<M> = opt_of(m).cloned() => [#[emit::optional] #[emit::as_serde]] v.as_ref();
+}
+
 // ---------------------------------------------------------------------------
 // values per site class
 // ---------------------------------------------------------------------------
@@ -1418,7 +1559,7 @@ fn gen_for_class(g: &mut Rng, class: &str, big: bool) -> M {
 }
 
 fn run_case(r: &mut Report, seed: u64, i: u64, threads: bool) {
-    let site = &SITES[(i % SITES.len() as u64) as usize];
+    let site = site_at((i % n_sites() as u64) as usize);
     let mut g = Rng::stream(seed, &[19, 1, i]);
     let big = g.chance(1, 10);
     let model = gen_for_class(&mut g, site.class, big);
@@ -1456,7 +1597,7 @@ fn run_case(r: &mut Report, seed: u64, i: u64, threads: bool) {
     }
     let mut d = Driver::new(r, site.name, site.cap, &seen, exp, case, threads && i % 2 == 0);
     d.alt = alt;
-    d.variant = i / SITES.len() as u64;
+    d.variant = i / n_sites() as u64;
     let run = site.run;
     if let Err(p) = catch(|| run(&model, &mut d)) {
         d.violation("site", "panic", format!("the call site panicked: {}", p));
@@ -1503,7 +1644,7 @@ fn main() {
     let threads = !args.get("no-threads").is_some();
     // `dbg!` can only use the process-wide runtime
     let _global = emit::setup().emit_to(GlobalObsEmitter).with_clock(FakeClock::new(1_700_000_000_000_000_000)).with_rng(CountingRng::new()).try_init();
-    r.set("sites", json!(SITES.len()));
+    r.set("sites", json!(n_sites()));
 
     if let Some(path) = &args.replay {
         let case = load_replay(path);
@@ -1514,8 +1655,8 @@ fn main() {
         std::process::exit(r.finish());
     }
 
-    let per_site = args.get_u64("per-site", args.n(1_500, 30_000));
-    let n = per_site * SITES.len() as u64;
+    let per_site = args.get_u64("per-site", args.n(1_300, 26_000));
+    let n = per_site * n_sites() as u64;
     if let Some(cases) = args.get("cases").and_then(|c| c.parse::<u64>().ok()) {
         // tiny lanes (Miri): `cases` cases whose sites rotate with the seed so a seed sweep covers them all
         for k in 0..cases {
